@@ -43,6 +43,8 @@ SEED = bytes(range(1, 33))
 PK = sigmsg.pubkey(SEED)
 SCALAR = nb.crypto_core_ed25519_scalar_reduce(bytes(range(7, 71)))
 TPOINT = nb.crypto_scalarmult_ed25519_base_noclamp(SCALAR)
+LIMIT = 61          # never the Tape default: a context that falls back to the
+#                     default is seen by the dispatch hook
 CID = b'\xc9' * 4
 TID = b'\x7a' * 4
 FIELDS = {'sigfield1': b'hello', 'sigfield2': b'world!'}
@@ -274,6 +276,14 @@ def probes():
         + isa.push(b'dest') + isa.push(b'') + isa.push(b'\x05') \
         + isa.push(TID) + O('CHECK_TRANSFER') + out()
     P['check_transfer'] = (tr, [b'o'], [('contract', {})])
+    # limits: a LOOP of exactly K iterations under callstack_limit L completes
+    # iff K <= L, wherever it stands (the iteration bound is per LOOP)
+    for K in (6, 130):
+        body = O('FALSE') + O('TRUE') * K + isa.LOOP(O('POP0')) + O('POP0')
+        P[f'loop{K}'] = (isa.TRY(body + isa.push(b'ok'), isa.push(b'err'))
+                         + out(), [b'o'],
+                         [(f'limit={L}', {'callstack_limit': L})
+                          for L in (K - 1, K, K + 70)])
     return P
 
 
@@ -324,6 +334,8 @@ def spec_effect(pname, label, kw):
     elif pname == 'check_epoch':
         thr = fl.get('epoch_threshold', 60)
         e['o'] = b'\xff' if 50 < thr else b'\x00'
+    elif pname.startswith('loop'):
+        e['o'] = b'ok' if int(pname[4:]) <= kw['callstack_limit'] else b'err'
     elif pname == 'eval_allowed':
         e['o'] = b'err' if 'disallow_OP_EVAL' in fl else b'ok'
     elif pname == 'eval_return':
@@ -423,7 +435,9 @@ def execute(script, kw):
             script, cache_vals,
             contracts={CID: Invokable(), TID: Transfer()},
             additional_flags=dict(kw.get('additional_flags', {})),
-            plugins={k: list(v) for k, v in kw.get('plugins', {}).items()})
+            plugins={k: list(v) for k, v in kw.get('plugins', {}).items()},
+            stack_max_items=977, stack_max_item_size=1009,
+            callstack_limit=kw.get('callstack_limit', LIMIT))
         return {'raised': None, 'stack': list(stack.deque), 'cache': cache}
     except BaseException as e:
         return {'raised': e, 'stack': None, 'cache': {}}
